@@ -2,6 +2,7 @@
 // integration, dispatch of FpApply/FpBF to the generated expressions, and
 // grid construction from special floating-point values (C11).
 #include <bspline/integration/numerical.h>
+#include <bspline/interpolation/interpolation.h>
 
 #include <cmath>
 
@@ -11,11 +12,25 @@
 namespace verif {
 namespace {
 
+// rescales a spline generated on knots * 2^-s back to the unit scale: the
+// coefficient of u^k is multiplied by 2^(-s k) (exact: powers of two)
+template <typename F, size_t O>
+Spline<F, O> rescaled(const Spline<F, O> &r, const Grid<F> &unitGrid, int s) {
+  auto c = r.getCoefficients();
+  for (auto &iv : c)
+    for (size_t k = 0; k <= O; k++) iv[k] = std::ldexp(iv[k], -s * static_cast<int>(k));
+  return Spline<F, O>(Support<F>(unitGrid, r.getSupport().getStartIndex(), r.getSupport().getEndIndex()), std::move(c));
+}
+
 void fpGen(const json &in, json &out) {
   dropHints(out);
   forTypes(out, [&](auto tag, FpAcc &acc) {
     using F = decltype(tag);
-    const std::vector<F> knots = decVec<F>(in.at("knots"));
+    // float cannot hold 2^(60 k): it is scaled by 2^-30 (spacing ~1e-9 << eps_float)
+    const int sexp = std::min(in.value("sexp", 0), std::is_same_v<F, float> ? 30 : 1000);
+    const std::vector<F> unit = decVec<F>(in.at("knots"));
+    std::vector<F> knots = unit;
+    for (auto &x : knots) x = std::ldexp(x, -sexp);
     withOrder(in.at("p").get<size_t>(), [&](auto P) {
       constexpr size_t p = decltype(P)::value;
       if constexpr (p <= 5) {
@@ -26,7 +41,14 @@ void fpGen(const json &in, json &out) {
           acc.where = "count";
           return;
         }
-        for (size_t i = 0; i < basis.size(); i++) cmpSpline(acc, basis[i], E[i], S[i], "B" + std::to_string(i));
+        const bspline::BSplineGenerator<F> unitGen(unit);
+        const Grid<F> ug = unitGen.getGrid();
+        for (size_t i = 0; i < basis.size(); i++) {
+          if (sexp == 0)
+            cmpSpline(acc, basis[i], E[i], S[i], "B" + std::to_string(i));
+          else
+            cmpSpline(acc, rescaled(basis[i], ug, sexp), E[i], S[i], "B" + std::to_string(i));
+        }
       }
     });
   });
@@ -153,6 +175,107 @@ void fpBF(const json &in, json &out) {
   it->second(in, out);
 }
 
+
+// ---------------------------------------------------------------- interpolation, bundled dense solver (C12)
+// The returned spline must satisfy every row of the interpolation conditions
+// (node values from both adjacent pieces, continuity of derivatives
+// 1..order-1 at interior nodes, boundary rows) up to the solver's backward
+// error, normwise:  max_i |row_i . x - b_i| <= 2^20 eps (||M||_inf ||x||_inf + ||b||_inf).
+// Rows are evaluated in __float128 from the returned coefficients.
+template <typename F, size_t O>
+void interpResidual(FpAcc &acc, const json &in, const Spline<F, O> &r) {
+  const json &jx = in.at("x");
+  const size_t s = jx.at("s").get<size_t>(), e = jx.at("e").get<size_t>();
+  const size_t n = e - s;
+  std::vector<Q> g;
+  for (const auto &p : jx.at("g")) g.push_back(ratQ(p));
+  const auto &c = r.getCoefficients();
+  if (r.getSupport().getStartIndex() != s || r.getSupport().getEndIndex() != e || c.size() != n - 1) {
+    acc.ok = false;
+    acc.where = "window";
+    return;
+  }
+  Q maxRes = 0, normM = 0, normX = 0, normB = 0;
+  for (const auto &iv : c)
+    for (const auto &v : iv) {
+      acc.feed(static_cast<long double>(v));
+      normX = std::max(normX, qabs(static_cast<Q>(v)));
+    }
+  // value of the d-th derivative of piece j at local coordinate u, and the abs row sum
+  auto row = [&](size_t j, Q u, size_t d, Q &absSum) {
+    Q val = 0, pw = 1;
+    absSum = 0;
+    for (size_t k = d; k <= O; k++) {
+      Q f = 1;
+      for (size_t m = k; m > k - d; m--) f *= static_cast<Q>(m);
+      val += f * pw * static_cast<Q>(c[j][k]);
+      absSum += qabs(f * pw);
+      pw *= u;
+    }
+    return val;
+  };
+  auto half = [&](size_t j) { return (g[s + j + 1] - g[s + j]) / 2; };
+  auto note = [&](Q lhs, Q rhs, Q absSum) {
+    maxRes = std::max(maxRes, qabs(lhs - rhs));
+    normM = std::max(normM, absSum);
+    normB = std::max(normB, qabs(rhs));
+  };
+  const json &y = in.at("y");
+  for (size_t i = 0; i < n; i++) {
+    Q a1, a2;
+    if (i + 1 < n) note(row(i, -half(i), 0, a1), ratQ(y[i]), a1);
+    if (i >= 1) note(row(i - 1, half(i - 1), 0, a2), ratQ(y[i]), a2);
+  }
+  for (size_t i = 1; i + 1 < n; i++)
+    for (size_t d = 1; d < O; d++) {
+      Q a1, a2;
+      const Q l = row(i - 1, half(i - 1), d, a1), rr = row(i, -half(i), d, a2);
+      maxRes = std::max(maxRes, qabs(l - rr));
+      normM = std::max(normM, a1 + a2);
+    }
+  for (const auto &b : in.at("bcs")) {
+    Q a1;
+    const size_t d = b.at("d").get<size_t>();
+    if (b.at("node").get<int>() == 0)
+      note(row(0, -half(0), d, a1), ratQ(b.at("v")), a1);
+    else
+      note(row(n - 2, half(n - 2), d, a1), ratQ(b.at("v")), a1);
+  }
+  acc.n++;
+  const Q eps = static_cast<Q>(std::numeric_limits<F>::epsilon());
+  const Q tol = static_cast<Q>(1048576.0L) * eps * (normM * normX + normB);
+  if (!(maxRes <= tol)) {
+    acc.ok = false;
+    acc.where = "residual";
+  }
+  const Q den = eps * (normM * normX + normB);
+  if (den > 0) acc.worst = std::max(acc.worst, static_cast<long double>(maxRes / den));
+}
+
+void fpInterp(const json &in, json &out) {
+  using namespace bspline::interpolation;
+  const json &jx = in.at("x");
+  const bool dflt = in.at("dflt").get<int>() != 0;
+  forTypes(out, [&](auto tag, FpAcc &acc) {
+    using F = decltype(tag);
+    const Grid<F> g = mkGrid<F>(jx.at("g"));
+    const Support<F> x = mkSupport<F>(jx, g);
+    const std::vector<F> y = decVec<F>(in.at("y"));
+    withOrder(in.at("order").get<size_t>(), [&](auto O) {
+      constexpr size_t o = decltype(O)::value;
+      if constexpr (o >= 1 && o <= 4) {
+        std::array<Boundary<F>, o - 1> bcs;
+        const json &jb = in.at("bcs");
+        for (size_t i = 0; i < o - 1; i++)
+          bcs[i] = Boundary<F>{jb.at(i).at("node").get<int>() == 0 ? Node::FIRST : Node::LAST, jb.at(i).at("d").get<size_t>(),
+                               Codec<F>::dec(jb.at(i).at("v"))};
+        const auto r = dflt ? interpolateUsingEigen<F, o>(x, y) : interpolateUsingEigen<F, o>(x, y, bcs);
+        interpResidual(acc, in, r);
+      }
+    });
+  });
+}
+
 // special floating values: [tag, n, d]  tag 0 = n/d, 1 = NaN, 2 = +Inf, 3 = -Inf, 4 = -0.0
 template <typename F>
 F decSpecial(const json &t) {
@@ -180,6 +303,6 @@ void fpGridNew(const json &in, json &out) {
 }
 
 Reg r1("FpGen", fpGen), r2("FpEval", fpEval), r3("FpBin", fpBin), r4("FpInt", fpInt), r5("FpApply", fpApply),
-    r6("FpBF", fpBF), r7("FpGridNew", fpGridNew);
+    r6("FpBF", fpBF), r7("FpGridNew", fpGridNew), r8("FpInterp", fpInterp);
 }  // namespace
 }  // namespace verif
